@@ -338,6 +338,28 @@ class Framing(Suite):
         return repr(case)
 
 
+def modify_in_place(v):
+    """what a consumer that treats its input as scratch space does to a loaded value"""
+    import numpy as np
+    import pandas as pd
+    if isinstance(v, np.ndarray):
+        if v.size and v.dtype.kind in 'iuf':
+            v += 1
+        elif v.size and v.dtype.kind == 'b':
+            v[...] = ~v
+    elif isinstance(v, list):
+        for x in v:
+            modify_in_place(x)
+        v.append('SCRIBBLE')
+    elif isinstance(v, dict):
+        for x in list(v.values()):
+            modify_in_place(x)
+        v['SCRIBBLE'] = 1
+    elif isinstance(v, pd.DataFrame):
+        if len(v.columns) and len(v):
+            v.iloc[0, 0] = v.iloc[-1, 0]
+
+
 class Replaced(Suite):
     """histories, not single round trips: a result is stored, then the task is forced and run returns another value
     of the same data class - equal under == but not in element types (1 / 1.0 / True), shorter, or of another dtype;
@@ -368,6 +390,13 @@ class Replaced(Suite):
         for c in out:
             for how in ('forced', 'leftover', 'forced_leftover'):
                 cases.append(dict(c, how=how))
+        # a process that has loaded the value while ANOTHER process replaces it, then loads it again in a new chain
+        for c in out[:8] + out[12:16]:
+            cases.append(dict(c, how='other_process'))
+        # a later chain modifies the value it loaded, in place: the stored files and what the next chain loads stay
+        big = dict(kind='numpy', dtype='float64', shape=[700000], data=None, big=True)
+        for first in [c['first'] for c in out if c['first']['kind'] in ('json', 'numpy', 'listnumpy', 'frame')][:10] + [big]:
+            cases.append(dict(first=first, second=first, how='modified_after_load'))
         return cases
 
     def run_impl(self, case):
@@ -395,7 +424,52 @@ class Replaced(Suite):
             def load():
                 t = chain()['rt:rt']
                 return dict(has=bool(t.has_data), loaded=describe(t.value))
+            if first.get('big'):
+                first = dict(first, data=[float(i % 97) for i in range(first['shape'][0])])
+                second = first
             make_task_module(first)
+            if how == 'modified_after_load':
+                a = in_child(lambda: dict(computing=describe(chain()['rt:rt'].value)))
+                if 'child_error' in a:
+                    return dict(setup_error=a['child_error'])
+
+                def load_and_modify():
+                    t = chain()['rt:rt']
+                    before = files_digest('data')
+                    v = t.value
+                    loaded = describe(v)
+                    modify_in_place(v)
+                    del v, t
+                    import gc
+                    gc.collect()
+                    return dict(loaded=loaded, unchanged=before == files_digest('data'))
+                b = in_child(load_and_modify)
+                if 'child_error' in b:
+                    return dict(load_error=b['child_error'], computing=a['computing'])
+                c = in_child(load)
+                if 'child_error' in c:
+                    return dict(load_error=c['child_error'], computing=a['computing'])
+                small = lambda d: d if len(json.dumps(d)) < 5000 else ['digest', hashlib.sha256(json.dumps(d).encode()).hexdigest()]
+                return dict(computing=small(a['computing']), loaded=small(c['loaded']), has=c['has'], first_load=small(b['loaded']),
+                            files_unchanged=b['unchanged'])
+            if how == 'other_process':
+                def p1():
+                    a1 = in_child(lambda: compute_first('data'))
+                    if 'child_error' in a1:
+                        return dict(setup_error=a1['child_error'])
+                    seen_first = describe(chain()['rt:rt'].value)          # this process has loaded the first value
+                    make_task_module(second)
+                    b1 = in_child(lambda: (chain()['rt:rt'].force(), dict(computing=describe(chain_forced().value)))[1])
+                    if 'child_error' in b1:
+                        return dict(compute_error=b1['child_error'])
+                    t = chain()['rt:rt']                                   # a new chain in the process that loaded before
+                    return dict(computing=b1['computing'], has=bool(t.has_data), loaded=describe(t.value), seen_first=seen_first)
+
+                def chain_forced():
+                    t = chain()['rt:rt']
+                    t.force()
+                    return t
+                return in_child(p1)
             if 'forced' in how:
                 a = in_child(lambda: compute_first('data'))
                 if 'child_error' in a:
@@ -437,6 +511,11 @@ class Replaced(Suite):
             return f'{case["how"]}: the value stored by the last run cannot be loaded by a later chain: {obs["load_error"]}'
         if not obs['has']:
             return 'the later chain finds no stored result'
+        if case['how'] == 'modified_after_load':
+            if not obs['files_unchanged']:
+                return 'modified_after_load: modifying a loaded value in place changed the stored files'
+            if obs['first_load'] != obs['computing']:
+                return f'modified_after_load: the first later chain loads {json.dumps(obs["first_load"])[:200]}, run returned {json.dumps(obs["computing"])[:200]}'
         if obs['loaded'] != obs['computing']:
             return (f'{case["how"]}: the later chain loads {json.dumps(obs["loaded"])[:300]}, the last run returned '
                     f'{json.dumps(obs["computing"])[:300]} (first value: {json.dumps(case["first"])[:200]})')
